@@ -26,7 +26,14 @@ class Ctx:
         self.model_ok = model_ok
         self.rng = random.Random('%s/%d' % (pid, seed))
 
+        # change-aware budget: when a source file this property is anchored in differs from the tree the machinery was
+        # committed against, the quick tier searches deeper (it does not alarm by itself: a rewrite may be harmless)
+        self.changed = vlib.changed_anchor_files(pid)
+        self.escalate = bool(self.changed) and self.quick
+
     def n(self, quick, thorough):
+        if self.escalate:
+            return max(quick, min(thorough, quick * 5))
         return quick if self.quick else thorough
 
 
